@@ -261,7 +261,27 @@ def r16a(model: Model, rr: RuleResult):
             rr.unknown(f"transformed never returns {need}")
     # every path ends in a return of a Paint: the last statement is the PaintTransform fallback
     last = fi.body[-1]
-    if isinstance(last, ast.Return) and isinstance(last.value, ast.Call) and norm(last.value.func) == "PaintTransform":
+
+    def always_returns(body) -> bool:
+        if not body:
+            return False
+        t = body[-1]
+        if isinstance(t, (ast.Return, ast.Raise)):
+            return True
+        if isinstance(t, ast.If) and t.orelse:
+            return always_returns(t.body) and always_returns(t.orelse)
+        return False
+
+    def tail_returns(body):
+        """the returns a block can end with (the statements control reaches when nothing earlier returned)"""
+        t = body[-1]
+        if isinstance(t, ast.Return):
+            return [t]
+        if isinstance(t, ast.If) and t.orelse:
+            return tail_returns(t.body) + tail_returns(t.orelse)
+        return []
+    general = [r for r in (tail_returns(fi.body) if always_returns(fi.body) else []) if isinstance(r.value, ast.Call) and norm(r.value.func) == "PaintTransform"]
+    if always_returns(fi.body) and general:
         rr.ok("every unmatched case falls through to PaintTransform")
     else:
         rr.bad(fi, last, "transformed does not end in the general PaintTransform fallback", construct=short(last))
@@ -348,7 +368,7 @@ def r16b(model: Model, rr: RuleResult):
             rr.bad(at, at.node, f"{cname}.apply_transform does not run check_overflows() on the gradient it returns (under the flag only)",
                    construct=f"{cname}.apply_transform: check_overflows call")
     # callers that opt out
-    allowed = {("svg", "_apply_gradient_paint")}
+    allowed_modules = {"svg"}  # the OT-SVG writer: its output has no 16-bit fields, whichever of its functions makes the call
     n = 0
     for fi in model.all_functions():
         for c in calls_in(fi):
@@ -356,7 +376,7 @@ def r16b(model: Model, rr: RuleResult):
                 n += 1
                 kv = kwarg(c, "check_overflows")
                 if kv is not None and norm(kv) != "True":
-                    if (fi.module.name, fi.qualname) in allowed:
+                    if fi.module.name in allowed_modules:
                         rr.exceptions_used.append(f"{fi.fq}: opts out of overflow checks (SVG back end has no 16-bit fields)")
                         rr.ok(f"{fi.fq}: apply_transform(check_overflows=False) (reviewed: SVG output)")
                     else:
